@@ -332,11 +332,138 @@ Proof.
     unfold atom_sem in H.
     repeat match type of H with
            | (if ?c then _ else _) = _ => destruct c
-           end; try discriminate; inversion H; subst; cbn; try exact I; unfold reads_only; intros ? ? ?; reflexivity.
+           end; try discriminate;
+    try match type of H with match ?d with _ => _ end = _ => destruct d; [|discriminate] end;
+    inversion H; subst; cbn; try exact I; unfold reads_only; intros ? ? ?; reflexivity.
   - cbn [ppev] in H.
     set (l := (fix go (l : list Plan.sx) : list (option sem) := match l with [] => [] | x :: r => ppev env x :: go r end) args) in H.
     destruct (all_some l) as [vs|] eqn:E; [|discriminate].
     eapply op_sem_wf; [|exact H]. eapply all_some_forall; [exact E|].
     subst l. clear E H. induction args as [|x args IHa]; [constructor|].
     inversion IH as [|? ? Hx Hr]; subst. constructor; [exact Hx|apply IHa, Hr].
+Qed.
+
+(** ** join conditions pushed into an input (inner and semi joins; for the outer joins see the
+       refutations) *)
+Lemma flat_map_sel {A B} (q : A -> bool) (g g' : A -> list B) L :
+  (forall l, In l L -> g' l = if q l then g l else []) -> flat_map g' L = flat_map g (filter q L).
+Proof.
+  induction L as [|l L IH]; intros H; [reflexivity|]. cbn [flat_map filter].
+  rewrite (H l (or_introl eq_refl)), IH by (intros x Hx; apply H; right; exact Hx).
+  destruct (q l); reflexivity.
+Qed.
+Lemma matches_left_cond s c1 c2 lc l R : reads_only s c1 -> inclb s lc = true -> map fst l = lc ->
+  matches (and3f c1 c2) l R = if holdsf c1 l then matches c2 l R else [].
+Proof.
+  intros Hc Hs Hl. unfold matches. rewrite <- filter_and.
+  rewrite (filter_all_left s c1 lc l (filter (holdsf c2) (map (fun r => l ++ r) R)) Hc Hs Hl); [reflexivity|].
+  intros x Hx. apply filter_In in Hx as [Hx _]. apply in_map_iff in Hx as (r & <- & _). eexists; reflexivity.
+Qed.
+Lemma inner_join_cond_left s c1 c2 lc L R : reads_only s c1 -> inclb s lc = true -> wf_rel lc L ->
+  flat_map (fun l => matches (and3f c1 c2) l R) L = flat_map (fun l => matches c2 l R) (filter (holdsf c1) L).
+Proof.
+  intros Hc Hs Hw. apply flat_map_sel. intros l Hl. unfold wf_rel in Hw. rewrite Forall_forall in Hw.
+  apply (matches_left_cond s c1 c2 lc l R Hc Hs (Hw l Hl)).
+Qed.
+Lemma matches_true l R : matches (fun _ => DBool true) l R = map (fun r => l ++ r) R.
+Proof. unfold matches. apply filter_true. Qed.
+Lemma matches_left_only s c1 lc l R : reads_only s c1 -> inclb s lc = true -> map fst l = lc ->
+  matches c1 l R = if holdsf c1 l then matches (fun _ => DBool true) l R else [].
+Proof.
+  intros Hc Hs Hl. rewrite matches_true. unfold matches.
+  apply (filter_all_left s c1 lc l _ Hc Hs Hl). intros x Hx. apply in_map_iff in Hx as (r & <- & _). eexists; reflexivity.
+Qed.
+Lemma inner_join_cond_left_1 s c1 lc L R : reads_only s c1 -> inclb s lc = true -> wf_rel lc L ->
+  flat_map (fun l => matches c1 l R) L = flat_map (fun l => matches (fun _ => DBool true) l R) (filter (holdsf c1) L).
+Proof.
+  intros Hc Hs Hw. apply flat_map_sel. intros l Hl. unfold wf_rel in Hw. rewrite Forall_forall in Hw.
+  apply (matches_left_only s c1 lc l R Hc Hs (Hw l Hl)).
+Qed.
+Lemma semi_join_cond_left s c1 c2 lc L R : reads_only s c1 -> inclb s lc = true -> wf_rel lc L ->
+  filter (fun l => existsb (fun r => holdsf (and3f c1 c2) (l ++ r)) R) L =
+  filter (fun l => existsb (fun r => holdsf c2 (l ++ r)) R) (filter (holdsf c1) L).
+Proof.
+  intros Hc Hs Hw. rewrite filter_filter. apply filter_ext_in. intros l Hl.
+  unfold wf_rel in Hw. rewrite Forall_forall in Hw. specialize (Hw l Hl).
+  induction R as [|r R IH]; cbn [existsb]; [rewrite andb_false_r; reflexivity|].
+  rewrite IH, holdsf_and3f. unfold holdsf at 1. rewrite (expr_left s c1 lc l r Hc Hs Hw). fold (holdsf c1 l).
+  destruct (holdsf c1 l); destruct (holdsf c2 (l ++ r)); reflexivity.
+Qed.
+
+(** a condition over the right columns only *)
+Lemma matches_right_cond s c1 c2 lc l R : reads_only s c1 -> disjb s lc = true -> map fst l = lc ->
+  matches (and3f c1 c2) l R = matches c2 l (filter (holdsf c1) R).
+Proof.
+  intros Hc Hs Hl. unfold matches. rewrite <- filter_and.
+  induction R as [|r R IH]; [reflexivity|].
+  assert (E : holdsf c1 r = holdsf c1 (l ++ r)) by (unfold holdsf; rewrite (expr_right s c1 lc l r Hc Hs Hl); reflexivity).
+  cbn [map filter]. rewrite E.
+  destruct (holdsf c2 (l ++ r)) eqn:E2; destruct (holdsf c1 (l ++ r)) eqn:E1; cbn [map filter]; rewrite ?E1, ?E2; rewrite IH; reflexivity.
+Qed.
+Lemma inner_join_cond_right s c1 c2 lc L R : reads_only s c1 -> disjb s lc = true -> wf_rel lc L ->
+  flat_map (fun l => matches (and3f c1 c2) l R) L = flat_map (fun l => matches c2 l (filter (holdsf c1) R)) L.
+Proof.
+  intros Hc Hs Hw. apply flat_map_ext_in. intros l Hl. unfold wf_rel in Hw. rewrite Forall_forall in Hw.
+  apply (matches_right_cond s c1 c2 lc l R Hc Hs (Hw l Hl)).
+Qed.
+Lemma left_join_cond_right s c1 c2 lc rc L R : reads_only s c1 -> disjb s lc = true -> wf_rel lc L ->
+  left_rows (and3f c1 c2) rc L R = left_rows c2 rc L (filter (holdsf c1) R).
+Proof.
+  intros Hc Hs Hw. unfold left_rows. apply flat_map_ext_in. intros l Hl. unfold wf_rel in Hw. rewrite Forall_forall in Hw.
+  rewrite (matches_right_cond s c1 c2 lc l R Hc Hs (Hw l Hl)). reflexivity.
+Qed.
+Lemma existsb_right_cond s c1 c2 lc l R : reads_only s c1 -> disjb s lc = true -> map fst l = lc ->
+  existsb (fun r => holdsf (and3f c1 c2) (l ++ r)) R = existsb (fun r => holdsf c2 (l ++ r)) (filter (holdsf c1) R).
+Proof.
+  intros Hc Hs Hl. induction R as [|r R IH]; [reflexivity|].
+  assert (E : holdsf c1 r = holdsf c1 (l ++ r)) by (unfold holdsf; rewrite (expr_right s c1 lc l r Hc Hs Hl); reflexivity).
+  cbn [existsb filter]. rewrite holdsf_and3f, E.
+  destruct (holdsf c1 (l ++ r)); cbn [existsb andb]; rewrite IH; reflexivity.
+Qed.
+Lemma semi_join_cond_right s c1 c2 lc L R : reads_only s c1 -> disjb s lc = true -> wf_rel lc L ->
+  filter (fun l => existsb (fun r => holdsf (and3f c1 c2) (l ++ r)) R) L =
+  filter (fun l => existsb (fun r => holdsf c2 (l ++ r)) (filter (holdsf c1) R)) L.
+Proof.
+  intros Hc Hs Hw. apply filter_ext_in. intros l Hl. unfold wf_rel in Hw. rewrite Forall_forall in Hw.
+  apply (existsb_right_cond s c1 c2 lc l R Hc Hs (Hw l Hl)).
+Qed.
+Lemma anti_join_cond_right s c1 c2 lc L R : reads_only s c1 -> disjb s lc = true -> wf_rel lc L ->
+  filter (fun l => negb (existsb (fun r => holdsf (and3f c1 c2) (l ++ r)) R)) L =
+  filter (fun l => negb (existsb (fun r => holdsf c2 (l ++ r)) (filter (holdsf c1) R))) L.
+Proof.
+  intros Hc Hs Hw. apply filter_ext_in. intros l Hl. unfold wf_rel in Hw. rewrite Forall_forall in Hw.
+  rewrite (existsb_right_cond s c1 c2 lc l R Hc Hs (Hw l Hl)). reflexivity.
+Qed.
+
+(** ** rotation of two inner joins *)
+Lemma flat_map_flat_map {A B C} (f : A -> list B) (g : B -> list C) l :
+  flat_map g (flat_map f l) = flat_map (fun x => flat_map g (f x)) l.
+Proof. induction l as [|x l IH]; [reflexivity|]. cbn [flat_map]. rewrite flat_map_app, IH. reflexivity. Qed.
+Lemma flat_map_filter_map {A B C} (p : B -> bool) (f : A -> B) (g : B -> list C) l :
+  flat_map g (filter p (map f l)) = flat_map (fun a => if p (f a) then g (f a) else []) l.
+Proof. induction l as [|a l IH]; [reflexivity|]. cbn [map filter flat_map]. destruct (p (f a)); cbn [flat_map]; rewrite IH; reflexivity. Qed.
+Lemma filter_map_flat_map {A B C} (p : C -> bool) (h : B -> C) (f : A -> list B) l :
+  filter p (map h (flat_map f l)) = flat_map (fun a => filter p (map h (f a))) l.
+Proof. induction l as [|a l IH]; [reflexivity|]. cbn [flat_map]. rewrite map_app, filter_app, IH. reflexivity. Qed.
+Lemma matches_left_cond' s c1 c2 lc x R : reads_only s c2 -> inclb s lc = true -> map fst x = lc ->
+  matches (and3f c1 c2) x R = if holdsf c2 x then matches c1 x R else [].
+Proof.
+  intros Hc Hs Hl. unfold matches. rewrite <- filter_and'.
+  rewrite (filter_all_left s c2 lc x (filter (holdsf c1) (map (fun r => x ++ r) R)) Hc Hs Hl); [reflexivity|].
+  intros y Hy. apply filter_In in Hy as [Hy _]. apply in_map_iff in Hy as (r & <- & _). eexists; reflexivity.
+Qed.
+Lemma inner_join_rotate s2 c1 c2 lc mc (L M R : list arow) :
+  reads_only s2 c2 -> inclb s2 (lc ++ mc) = true -> wf_rel lc L -> wf_rel mc M ->
+  flat_map (fun x => matches c1 x R) (flat_map (fun l => matches c2 l M) L) =
+  flat_map (fun l => matches (and3f c1 c2) l (flat_map (fun m => matches (fun _ => DBool true) m R) M)) L.
+Proof.
+  intros Hc Hs HL HM. rewrite flat_map_flat_map. apply flat_map_ext_in. intros l Hl.
+  unfold wf_rel in HL, HM. rewrite Forall_forall in HL, HM. specialize (HL l Hl).
+  unfold matches at 2. rewrite flat_map_filter_map.
+  unfold matches at 2. rewrite filter_map_flat_map. apply flat_map_ext_in. intros m Hm. specialize (HM m Hm).
+  rewrite matches_true, map_map.
+  symmetry. transitivity (matches (and3f c1 c2) (l ++ m) R).
+  { unfold matches. f_equal. apply map_ext. intros r. apply app_assoc. }
+  rewrite (matches_left_cond' s2 c1 c2 (lc ++ mc) (l ++ m) R Hc Hs) by (rewrite map_app, HL, HM; reflexivity).
+  reflexivity.
 Qed.
